@@ -106,6 +106,7 @@ type c11Case struct {
 	Mult   float64 `json:"backoff_multiplier"`
 	T5ms   int     `json:"t5_ms"`
 	Status int     `json:"select_status"`
+	Delays bool    `json:"delay_injection,omitempty"`
 }
 
 func c11Cases(env *fw.Env) []c11Case {
@@ -175,6 +176,25 @@ func c11Cases(env *fw.Env) []c11Case {
 			add(c11Case{Kind: "refused-dials", Active: true, Streak: streak, InitMs: g.init, Mult: g.m, T5ms: g.t5})
 			if streak <= 3 {
 				add(c11Case{Kind: "failed-listens", Active: false, Streak: streak, InitMs: g.init, Mult: g.m, T5ms: g.t5})
+			}
+		}
+	}
+	if !quick {
+		// thorough: every role-agnostic fault also in the other TCP role, and every single fault once more with
+		// delays injected around teardown / publish / dispatch (the recovery machinery's own suspension points)
+		base := len(cs)
+		agnostic := map[string]bool{"cut-reading-lib-linktest-req": true, "cut-reading-lib-linktest-rsp": true, "cut-reading-lib-data-primary": true,
+			"cut-writing-peer-reply": true, "cut-writing-peer-primary": true, "stall-t8": true, "stall-write-timeout": true, "stall-linktest": true}
+		for _, c := range cs[:base] {
+			if agnostic[c.Kind] {
+				c.Active = !c.Active
+				add(c)
+			}
+		}
+		for _, c := range cs[:len(cs):len(cs)] {
+			if c.Kind != "refused-dials" && c.Kind != "failed-listens" { // those compare hook-reported sleeps: no injected delays
+				c.Delays = true
+				add(c)
 			}
 		}
 	}
@@ -295,6 +315,11 @@ func c11One(env *fw.Env, cs c11Case) {
 		return
 	}
 	fail := func(key, msg string) { env.Violate(key, msg, cs) }
+	if cs.Delays {
+		undo := installDelays(env.Seed+uint64(cs.Index)*23, 2*time.Millisecond, 4, "hsms.react.beforeTeardown", "hsms.teardown.afterCancel", "hsms.connectLoop.afterPublish",
+			"hsms.sup.beforeStep", "hsmsss.recv.beforeDispatch", "hsmsss.accept.adopted")
+		defer func() { env.Event("delays_injected", undo()) }()
+	}
 
 	// requested reconnect delays, in order
 	var smu sync.Mutex
